@@ -20,6 +20,7 @@ import (
 	"net/url"
 	"os"
 	"reflect"
+	"sort"
 	"strconv"
 	"strings"
 	"sync"
@@ -651,7 +652,28 @@ func TestVerif_C19_Envelope(t *testing.T) {
 	defer srv.Close()
 
 	servers := []string{"Oryx", fmt.Sprintf("Verif-Server/1.0 (seed %d)", vrand.Seed()), "x"}
-	outs := make([][]vio, n)
+	// per signature: the witness of the lowest case index, and a count (deterministic, bounded memory)
+	type entry struct {
+		idx, seq, n int
+		v           vio
+	}
+	var cmu sync.Mutex
+	coll := map[string]*entry{}
+	flush := func(idx int, list []vio) {
+		cmu.Lock()
+		defer cmu.Unlock()
+		for seq, x := range list {
+			e := coll[x.sig]
+			if e == nil {
+				coll[x.sig] = &entry{idx, seq, 1, x}
+				continue
+			}
+			e.n++
+			if idx < e.idx {
+				e.idx, e.seq, e.v = idx, seq, x
+			}
+		}
+	}
 	per := (n + len(servers) - 1) / len(servers)
 	for phase, srvName := range servers {
 		oh.Server = srvName // a package variable: changed only between phases
@@ -664,6 +686,8 @@ func TestVerif_C19_Envelope(t *testing.T) {
 			if only != -1 && i != only {
 				return
 			}
+			var list []vio
+			defer func() { flush(i, list) }()
 			r := m.Rand("case", i)
 			c := genCase(r, i)
 			loop := i%2 == 0
@@ -679,7 +703,7 @@ func TestVerif_C19_Envelope(t *testing.T) {
 			}
 			// (1) recorder
 			var recBody []byte
-			v := &verdicts{m: m, c: c, via: "recorder", srv: srvName, list: &outs[i]}
+			v := &verdicts{m: m, c: c, via: "recorder", srv: srvName, list: &list}
 			m.Guard("http.handler:"+kindNames[c.kind], nil, func() {
 				rec := httptest.NewRecorder()
 				req := httptest.NewRequest("GET", "http://verif.test/case/"+strconv.Itoa(i)+q, nil)
@@ -698,7 +722,7 @@ func TestVerif_C19_Envelope(t *testing.T) {
 			cases.Store(i, c)
 			defer cases.Delete(i)
 			u := srv.URL + "/case/" + strconv.Itoa(i) + q
-			v = &verdicts{m: m, c: c, via: "loopback", srv: srvName, list: &outs[i]}
+			v = &verdicts{m: m, c: c, via: "loopback", srv: srvName, list: &list}
 			if c.callback != "" {
 				resp, err := http.Get(u)
 				if err != nil {
@@ -754,9 +778,19 @@ func TestVerif_C19_Envelope(t *testing.T) {
 			}
 		})
 	}
-	for i := range outs {
-		for _, x := range outs[i] {
-			m.Violation(x.sig, x.detail, x.replay)
+	var es []*entry
+	for _, e := range coll {
+		es = append(es, e)
+	}
+	sort.Slice(es, func(i, j int) bool {
+		if es[i].idx != es[j].idx {
+			return es[i].idx < es[j].idx
+		}
+		return es[i].seq < es[j].seq
+	})
+	for _, e := range es {
+		for k := 0; k < e.n; k++ {
+			m.Violation(e.v.sig, e.v.detail, e.v.replay)
 		}
 	}
 }
